@@ -444,9 +444,6 @@ func main() {
 	alphaN := r.Pick(16, 96)
 	maxRegions := r.Pick(12, 64)
 	seqWorlds := r.Pick(300, 300)
-	if os.Getenv("C06_DEBUG_FEW") != "" {
-		seqWorlds = 30
-	}
 	seqEvents := r.Pick(200, 400)
 	streams := r.Pick(4, 16)
 	concExact := r.Pick(70, 100)
